@@ -52,12 +52,6 @@ type verifArgFn struct{ f func(args []any) error }
 
 func (c verifArgFn) Call(fm *Frame, args []any, opts map[string]any) error { return c.f(args) }
 
-type verifCell struct{ v any }
-
-func (c *verifCell) Get() any        { return c.v }
-func (c *verifCell) Set(x any) error { c.v = x; return nil }
-
-var _ vars.Var = &verifCell{}
 
 func (w *verifWorld) run(code string, conds []any) error {
 	ev := &Evaler{builtin: w.builtins(conds), global: &Ns{}, modules: map[string]*Ns{}}
